@@ -428,6 +428,17 @@ func (p *proxyConn) writeResponse(res *http.Response) error {
 		}()
 	}
 
+	// A response body decompressed by the transport has no Content-Length and
+	// is not chunked, http.Response.Write neither delimits such a message
+	// nor closes the connection after it.
+	if res.Uncompressed && res.ContentLength == -1 && len(res.TransferEncoding) == 0 && !isHeaderOnlySpec(res) {
+		if req.ProtoAtLeast(1, 1) && res.ProtoAtLeast(1, 1) {
+			res.TransferEncoding = []string{"chunked"}
+		} else {
+			res.Close = true
+		}
+	}
+
 	if p.closing() {
 		res.Close = true
 	} else {
